@@ -1,11 +1,12 @@
 """C09 Dynamic slices are sound and checked lines were executed.
 
 Spec: PyMiniData.tla - a big-step semantics of a Python fragment with locals, globals, attributes,
-list/dict elements, calls of helper functions, `if x:` / `for` / early `return`, that computes the
+list/dict elements, calls of helper functions, `if x:` / `for` / `while x:` / early `return`, that computes the
 DYNAMIC DEPENDENCE relation along the executed path (data: last definition of everything a statement
 instance reads; control: the decisions that let it execute) and Slice(criterion) = backward closure.
-MC_PyMiniData.tla builds programs (skeleton x statements x inputs): exhaustively for the two-statement
-skeleton, by `-simulate` for the 18 skeletons with branching / loops / nesting depth 2.
+MC_PyMiniData.tla builds programs (skeleton x statements x inputs): exhaustively for the straight-line
+skeletons (full / core and themed alphabets), by `-simulate` for all 22 skeletons with branching / loops /
+nesting depth 2.
 
 Every case is rendered as a SUT module; the test `var_0 = f(a, b)` (+ `assert var_0 == v`) is executed
 by the REAL TestCaseExecutor under CHECKED instrumentation with the real
@@ -88,7 +89,7 @@ def shape(c: dict) -> str:
 
 def cases(ctx: Ctx) -> list[dict]:
     q = ctx.quick
-    nsim, per = (1, 300) if q else (4, 850)
+    nsim, per = (1, 280) if q else (4, 1000)
     with ThreadPoolExecutor(max_workers=nsim + 1) as ex:
         f_exh = ex.submit(ctx.behaviours, "MC_PyMiniData",
                           "MC_PyMiniData.cfg" if q else "MC_PyMiniData_thorough.cfg", timeout=2400)
@@ -104,7 +105,14 @@ def cases(ctx: Ctx) -> list[dict]:
     rng = ctx.rng("pick")
     exh.sort(key=_key)
     rng.shuffle(exh)
-    exh = exh[:110 if q else 1500]
+    if q:   # a stratified sample of the enumerated families
+        quota = {"full": 60, "attr": 100}
+        picked = []
+        for c in exh:
+            if quota.get(c["alpha"], 0) > 0:
+                quota[c["alpha"]] -= 1
+                picked.append(c)
+        exh = picked
     seen, out = set(), []
     for c in exh + sim:
         k = _key(c)
@@ -128,40 +136,46 @@ def _enclosing(prog: list, path: tuple) -> list[str]:
     return out
 
 
-def _edge_label(c: dict, kinds: dict, src: tuple, dst: tuple) -> str:
-    """Class of a broken dependence edge `dependent<-depended-on` (signature of a soundness finding)."""
-    ks = kinds.get(",".join(map(str, src)), "test")
-    kd = kinds[",".join(map(str, dst))]
-    if ks == "ret" and src[0] == 0 and "for" in _enclosing(c["prog"], src):
-        return "ret-in-for<-any"                 # the value returned from inside a for loop
-    if ks == "while" and dst[:len(src)] == src and len(dst) > len(src):
-        return "while<-loop-carried"             # the loop test reads a definition made by the loop body
+def _kind(kinds: dict, p: tuple) -> str:
+    return kinds.get(",".join(map(str, p)), "test")
+
+
+def _edge_class(c: dict, kinds: dict, src: tuple, dst: tuple) -> tuple[str, bool]:
+    """(class of the dependence edge `dependent<-depended-on`, sticky).  A sticky class names a dependent
+    whose reads the slicer is known not to follow at all: broken links found behind such an edge (behind
+    lines that are only reported for other reasons) belong to the same class."""
+    ks, kd = _kind(kinds, src), _kind(kinds, dst)
+    if ks == "ret" and src[0] == 0 and "for" in _enclosing(c["prog"], src) and kd not in ("if", "for", "while"):
+        return "ret-in-for<-any", True           # the value returned from inside a for loop
     if ks in ("lstore", "dstore"):
-        return f"{ks}<-any"                      # a subscript store that is reported without what it depends on
-    return f"{ks}<-{kd}"
+        return f"{ks}<-any", True                # a subscript store that is reported without what it reads
+    if ks == "while" and dst[:len(src)] == src and len(dst) > len(src):
+        return "while<-loop-carried", False      # the loop test reads a definition made by the loop body
+    return f"{ks}<-{kd}", False
 
 
 def _frontier(c: dict, e: dict, reported: list) -> list[str]:
     """Classes of the first broken links: walk the spec's dependence edges from the criterion through
-    reported lines only; an edge from a reached line to a line that is not reported is a broken link
-    (lines that are reported for other reasons behind a broken link are not looked at)."""
+    reported lines only; an edge from a reached line to a line that is not reported is a broken link."""
     line_of = {tuple(m["p"]): m["n"] for m in e["lmap"]}
     rep = set(reported)
     succ: dict[tuple, list[tuple]] = {}
     for src, dst in c["exp"]["edges"]:
         succ.setdefault(tuple(src), []).append(tuple(dst))
-    out, seen, work = set(), {(7, 1)}, [(7, 1)]
+    out, seen, work = set(), {((7, 1), None)}, [((7, 1), None)]
     while work:
-        src = work.pop()
+        src, tag = work.pop()
         for dst in succ.get(src, []):
             if dst not in line_of:
                 continue
+            cls, sticky = _edge_class(c, e["_kinds"], src, dst)
             if line_of[dst] in rep:
-                if dst not in seen:
-                    seen.add(dst)
-                    work.append(dst)
+                nxt = (dst, tag or (cls if sticky else None))
+                if nxt not in seen:
+                    seen.add(nxt)
+                    work.append(nxt)
             else:
-                out.add(_edge_label(c, e["_kinds"], src, dst))
+                out.add(tag or cls)
     return sorted(out)
 
 
@@ -170,13 +184,16 @@ def _strip(e: dict) -> dict:
 
 
 def run(ctx: Ctx) -> None:
-    ctx.rule = ("case = (program, inputs a, b in {0,1}): programs of the PyMiniData fragment built by "
-                "MC_PyMiniData (skeleton x alphabet of 36 simple statements over locals, a global, Box attributes "
-                "with an alias, list and dict elements, helper calls; skeletons: straight line, if, if/else, early "
-                "return, for, return inside a loop, nesting depth 2; <= 7 body statements + container creation + "
-                "return). quick: 170 of the exhaustively enumerated two-statement programs + ~300 simulated "
-                "programs over all 18 skeletons; thorough: 2600 of the exhaustively enumerated 2/3-statement "
-                "programs + ~5000 simulated. non-trivial = distinct cases whose spec slice has >= 3 lines of f")
+    ctx.rule = ("case = (program, inputs a, b): programs of the PyMiniData fragment built by MC_PyMiniData: skeleton "
+                "(22 shapes: straight line, if, if/else, early return, for, while, return inside a loop, nesting depth "
+                "2; <= 7 body statements + creation of the containers used + return) x alphabet of 37 simple statements "
+                "(locals, one global, attributes of a Box and of an alias / a second Box, list and dict elements, calls "
+                "of two helper functions with locals named like the caller's, one of which branches and reads the "
+                "global) x inputs in {0,1,2}^2. quick: a stratified sample (160) of the exhaustively enumerated "
+                "two-statement programs over the full alphabet and three-statement programs over the attribute "
+                "alphabet + ~270 simulated programs over all skeletons; thorough: all ~3700 exhaustively enumerated "
+                "two/three-statement programs (core, attribute, container, global alphabets) + ~3800 simulated. "
+                "non-trivial = distinct cases whose spec slice has >= 3 lines of f")
     ctx.assumptions = [
         "executed = lines executed by the import or by the call (sys.monitoring LINE events of all code objects of the "
         "uninstrumented module); every Pynguin trace starts from the import trace",
